@@ -34,13 +34,13 @@ def build_h_one(variant='c03-ts-asan', san='asan', heaptrack=False):
     return v
 
 
-def run(sysx, workdir, prog_argv, opts=(), env=None, cwd=None, timeout=60, name='t'):
+def run(sysx, workdir, prog_argv, opts=(), env=None, cwd=None, timeout=60, name='t', prefix=()):
     """returns parsed sysx report (dict) with extra keys: san (list of sanitizer reports)"""
     os.makedirs(workdir, exist_ok=True)
     outp = os.path.join(workdir, name + '.sysx.json')
     e = env if env is not None else H.san_env(workdir)
     try:
-        r = sh([sysx, '-o', outp] + list(opts) + ['--'] + list(prog_argv), env=e, cwd=cwd or workdir, timeout=timeout, stdin=subprocess.DEVNULL)
+        r = sh(list(prefix) + [sysx, '-o', outp] + list(opts) + ['--'] + list(prog_argv), env=e, cwd=cwd or workdir, timeout=timeout, stdin=subprocess.DEVNULL)
     except subprocess.TimeoutExpired:
         return {'error': 'sysx timeout', 'calls': [], 'signals': [], 'exited': 0, 'exit_code': -1, 'term_sig': 0, 'blocked_call': -9, 'san': []}
     try:
@@ -56,3 +56,13 @@ def run(sysx, workdir, prog_argv, opts=(), env=None, cwd=None, timeout=60, name=
             rep['san'].append(open(p, errors='replace').read()[:2500])
             os.unlink(p)
     return rep
+
+
+def build_h_ctty():
+    """launcher that gives the traced command a controlling terminal (foreground, or background with TOSTOP)"""
+    os.makedirs(AUX, exist_ok=True)
+    out = os.path.join(AUX, 'h_ctty')
+    r = sh(['gcc', '-O1', '-g', os.path.join(NATIVE, 'h_ctty.c'), '-o', out])
+    if r.returncode:
+        raise build.BuildError(r.stderr.decode()[:2000])
+    return out
